@@ -1,4 +1,5 @@
 import Comdex.Lemmas.Locker
+import Comdex.Lemmas.Accrual
 /-!
 # C13 — Savings and fee books are backed: locker balances and collector net fees
 
@@ -23,18 +24,35 @@ Property clause → theorem
                                                                     `C13.netfees_delta_exact_counterexample`
 * the two closes after the repair proposed in notes/C13.md        → `C13.repaired_surplus_close_exact`, `C13.repaired_debt_close_exact`
 
+Depth round (the savings reward, the auction start decision and the emergency guards are now INSIDE the model):
+* the reward handed to the ledger is ≥ 1 whole unit, whatever `math.Pow` returned                → `C13.reward_paid_pos`
+* accrued amount ≥ 0; zero for zero rate / zero elapsed time; monotone in the balance            → `C13.accrued_nonneg`, `C13.accrued_zero_rate`,
+                                                              `C13.accrued_zero_time` + `C13.nothing_paid_for_zero_accrual`, `C13.accrued_mono_balance`
+* never more than the collector's net fees of the (app, asset); unpayable ⇒ message rejected     → `C13.reward_le_netfees`,
+                                                              `C13.reward_calc_le_netfees`, `C13.reward_unpayable_rejects`
+* paying it keeps `deposited = Σ net` and custody ≥ Σ net fees — histories with the reward COMPUTED, no assumption about it
+                                                            → `C13.reachableT_inv`, `C13.deposited_eq_sum_netbalance_timed`,
+                                                              `C13.locker_custody_ge_deposited_timed`, `C13.netfees_nonneg_timed`,
+                                                              `C13.collector_custody_timed_partial`
+* a surplus auction starts only if net fees ≥ surplus threshold + lot and takes exactly the lot; a debt auction only if net fees ≤
+  debt threshold − lot; nothing starts when switched off; a sweep keeps the books
+                                                            → `C13.surplus_start_only_above_threshold`, `C13.debt_start_only_below_threshold`,
+                                                              `C13.no_start_when_switched_off`, `C13.activation_sweep_keeps_books`
+* emergency shutdown / kill switch on ⇒ create, deposit, whitelist rejected, nothing changes      → `C13.shutdown_blocks_create_deposit_whitelist`
+
 All statements quantify over every configuration (asset ids, app ids, collector lookup keys), every finite op list
 (`Comdex.Locker.Op`: funding, whitelisting, locker create / deposit / withdraw / close / reward calculation, saving-rate change,
 fee inflows from vault create-draw / repay / close, liquidation penalties, auction returns, raw net-fee decrease,
 `GetAmountFromCollector`, surplus fund, second-generation surplus / debt close) started from empty books, a rejected message
 leaving the state unchanged (`runSkip`), and every value of the external inputs subject to `Op.extOk` (an accrued reward that is
-paid is ≥ 0; a raw decrease is ≥ 0; interest and closing fee of a vault close are ≥ 0) — the driver checks these on every line.
+paid is ≥ 0 — a THEOREM for the computed reward; a raw decrease is ≥ 0; interest and closing fee of a vault close are ≥ 0) — the driver
+checks these on every line.
 -/
 namespace Comdex.C13
 open Comdex.Locker
 
 /-- empty books over an arbitrary configuration -/
-def init (assets apps : List Nat) (collk : List (Nat × Nat)) : State :=
+def init (assets apps : List Nat) (collk : Store (Nat × Nat) CL) : State :=
   { assets := assets, apps := apps, collk := collk }
 
 def ExtOk (ops : List Op) : Prop := ∀ op ∈ ops, op.extOk
@@ -52,7 +70,7 @@ theorem dmgTotal_zero {ops : List Op} (h : NoV2Close ops) (a : Nat) : dmgTotal o
     simp only [dmgTotal]
     rw [Op.dmg_zero (h op (by simp)), ih (fun o ho => h o (by simp [ho]))]; rfl
 
-theorem inv_init (assets apps : List Nat) (collk : List (Nat × Nat)) :
+theorem inv_init (assets apps : List Nat) (collk : Store (Nat × Nat) CL) :
     LInv (init assets apps collk) ∧ CInvD (fun _ => 0) (init assets apps collk) := by
   refine ⟨⟨?_, ?_, ?_, ?_, ?_, ?_⟩, ⟨?_, ?_⟩⟩ <;> simp [init, dep, lockSum, depAsset, feeAsset, Store.sumBy, Store.get, bal, Bank.bal, IdsInvS]
 
@@ -77,7 +95,7 @@ theorem inv_runSkip (ops : List Op) : ∀ (s : State) (D : Nat → Int), LInv s 
       exact ⟨a, b.mono (fun x => by simp only [dmgTotal]; omega)⟩
 
 /-- every reachable state satisfies the locker invariants, and the collector invariants up to the bounded shortfall -/
-theorem reachable_inv (assets apps : List Nat) (collk : List (Nat × Nat)) (ops : List Op) (h : ExtOk ops) :
+theorem reachable_inv (assets apps : List Nat) (collk : Store (Nat × Nat) CL) (ops : List Op) (h : ExtOk ops) :
     LInv (runSkip (init assets apps collk) ops) ∧ CInvD (dmgTotal ops) (runSkip (init assets apps collk) ops) := by
   obtain ⟨hL, hC⟩ := inv_init assets apps collk
   obtain ⟨a, b⟩ := inv_runSkip ops _ _ hL hC h
@@ -86,19 +104,19 @@ theorem reachable_inv (assets apps : List Nat) (collk : List (Nat × Nat)) (ops 
 /-! ## locker books -/
 
 /-- **Deposited total = Σ net balances**, for every (app, asset), after every history. -/
-theorem deposited_eq_sum_netbalance (assets apps : List Nat) (collk : List (Nat × Nat)) (ops : List Op) (h : ExtOk ops)
+theorem deposited_eq_sum_netbalance (assets apps : List Nat) (collk : Store (Nat × Nat) CL) (ops : List Op) (h : ExtOk ops)
     (app asset : Nat) :
     dep (runSkip (init assets apps collk) ops) (app, asset) = lockSum (app, asset) (runSkip (init assets apps collk) ops).lockers :=
   (reachable_inv assets apps collk ops h).1.depEq (app, asset)
 
 /-- **Locker custody**: per asset the custody account holds at least the deposited totals summed over all apps. -/
-theorem locker_custody_ge_deposited (assets apps : List Nat) (collk : List (Nat × Nat)) (ops : List Op) (h : ExtOk ops)
+theorem locker_custody_ge_deposited (assets apps : List Nat) (collk : Store (Nat × Nat) CL) (ops : List Op) (h : ExtOk ops)
     (asset : Nat) :
     depAsset asset (runSkip (init assets apps collk) ops).lookup ≤ bal (runSkip (init assets apps collk) ops) .locker asset :=
   (reachable_inv assets apps collk ops h).1.custody asset
 
 /-- … and therefore at least each single (app, asset) total. -/
-theorem locker_custody_ge_each_deposited (assets apps : List Nat) (collk : List (Nat × Nat)) (ops : List Op) (h : ExtOk ops)
+theorem locker_custody_ge_each_deposited (assets apps : List Nat) (collk : Store (Nat × Nat) CL) (ops : List Op) (h : ExtOk ops)
     (app asset : Nat) :
     dep (runSkip (init assets apps collk) ops) (app, asset) ≤ bal (runSkip (init assets apps collk) ops) .locker asset := by
   obtain ⟨hL, _⟩ := reachable_inv assets apps collk ops h
@@ -116,7 +134,7 @@ theorem locker_custody_ge_each_deposited (assets apps : List Nat) (collk : List 
 
 /-- **A withdrawal pays exactly the requested amount**: in every reachable state, a successful `MsgWithdrawAsset` raises the
 owner's balance by exactly `amt`, and the locker keeps `net + reward − amt`. -/
-theorem withdraw_pays_exactly (assets apps : List Nat) (collk : List (Nat × Nat)) (ops : List Op) (h : ExtOk ops)
+theorem withdraw_pays_exactly (assets apps : List Nat) (collk : Store (Nat × Nat) CL) (ops : List Op) (h : ExtOk ops)
     (u app asset id : Nat) (amt : Int) (rw : Rw) (hrw : rw.ok) (s' : State)
     (hstep : step (runSkip (init assets apps collk) ops) (.withdraw u app asset id amt rw) = some s') :
     bal s' (.user u) asset = bal (runSkip (init assets apps collk) ops) (.user u) asset + amt ∧
@@ -126,7 +144,7 @@ theorem withdraw_pays_exactly (assets apps : List Nat) (collk : List (Nat × Nat
   exact withdraw_pays hL hC hrw hstep
 
 /-- **A close pays exactly the full net balance** (the stored net balance plus the reward credited by the same message). -/
-theorem close_pays_exactly (assets apps : List Nat) (collk : List (Nat × Nat)) (ops : List Op) (h : ExtOk ops)
+theorem close_pays_exactly (assets apps : List Nat) (collk : Store (Nat × Nat) CL) (ops : List Op) (h : ExtOk ops)
     (u app asset id : Nat) (rw : Rw) (hrw : rw.ok) (s' : State)
     (hstep : step (runSkip (init assets apps collk) ops) (.close u app asset id rw) = some s') :
     ∃ l, Store.get (runSkip (init assets apps collk) ops).lockers id = some l ∧ l.owner = u ∧
@@ -137,13 +155,13 @@ theorem close_pays_exactly (assets apps : List Nat) (collk : List (Nat × Nat)) 
 /-! ## collector books -/
 
 /-- **Recorded net fees never go negative** — every history, the defective closes included. -/
-theorem netfees_nonneg (assets apps : List Nat) (collk : List (Nat × Nat)) (ops : List Op) (h : ExtOk ops) :
+theorem netfees_nonneg (assets apps : List Nat) (collk : Store (Nat × Nat) CL) (ops : List Op) (h : ExtOk ops) :
     ∀ p ∈ (runSkip (init assets apps collk) ops).fees, 0 ≤ p.2 :=
   (reachable_inv assets apps collk ops h).2.nonneg
 
 /-- What is true of the collector custody after EVERY history: the shortfall of asset `a` is at most the damage done by the
 second-generation closes (2·lot per surplus close, recorded − received per debt close). -/
-theorem collector_shortfall_bounded (assets apps : List Nat) (collk : List (Nat × Nat)) (ops : List Op) (h : ExtOk ops)
+theorem collector_shortfall_bounded (assets apps : List Nat) (collk : Store (Nat × Nat) CL) (ops : List Op) (h : ExtOk ops)
     (asset : Nat) :
     feeAsset asset (runSkip (init assets apps collk) ops).fees
       ≤ bal (runSkip (init assets apps collk) ops) .collector asset + dmgTotal ops asset :=
@@ -151,7 +169,7 @@ theorem collector_shortfall_bounded (assets apps : List Nat) (collk : List (Nat 
 
 /-- **Collector custody ≥ Σ over apps of recorded net fees**, per asset — for every history that contains no second-generation
 surplus / debt auction close. (The unrestricted statement is false: see the two counterexamples.) -/
-theorem collector_custody_ge_sum_netfees_partial (assets apps : List Nat) (collk : List (Nat × Nat)) (ops : List Op)
+theorem collector_custody_ge_sum_netfees_partial (assets apps : List Nat) (collk : Store (Nat × Nat) CL) (ops : List Op)
     (h : ExtOk ops) (hv2 : NoV2Close ops) (asset : Nat) :
     feeAsset asset (runSkip (init assets apps collk) ops).fees ≤ bal (runSkip (init assets apps collk) ops) .collector asset := by
   have := collector_shortfall_bounded assets apps collk ops h asset
@@ -161,37 +179,38 @@ theorem collector_custody_ge_sum_netfees_partial (assets apps : List Nat) (collk
 /-- witness 1 (reproduced on the real chain code, first sequence of the harness run): fees 20 are paid in and recorded; a surplus
 auction of lot 2 starts (`GetAmountFromCollector`); its second-generation close takes the lot from the collector again and
 ADDS it to the record ⇒ recorded 20, custody 16; the shortfall 4 = 2·lot attains the bound of `collector_shortfall_bounded`. -/
-def witnessSurplus : List Op := [.feeVault 1 2 20, .getAmount 1 2 2, .v2SurplusClose 1 2 0 2]
+def witnessSurplus : List Op :=
+  [.config (.amap 1 2 { surplus := true, active := true }), .feeVault 1 2 20, .getAmount 1 2 2, .v2SurplusClose 1 2 0 2]
 
 /-- witness 2: fees 20; a second-generation debt auction closes with bid `c = 15` units of the OTHER asset for `d = 2` of this
 asset: 2 arrive, 15 are recorded ⇒ recorded 35, custody 22. -/
-def witnessDebt : List Op := [.feeVault 1 2 20, .v2DebtClose 1 2 15 2]
+def witnessDebt : List Op := [.config (.amap 1 2 { debt := true, active := true }), .feeVault 1 2 20, .v2DebtClose 1 2 15 2]
 
 theorem collector_custody_ge_sum_netfees_counterexample :
     ExtOk witnessSurplus ∧
-    feeAsset 2 (runSkip (init [1, 2] [1] [(1, 2)]) witnessSurplus).fees = 20 ∧
-    bal (runSkip (init [1, 2] [1] [(1, 2)]) witnessSurplus) .collector 2 = 16 ∧
-    ¬ (feeAsset 2 (runSkip (init [1, 2] [1] [(1, 2)]) witnessSurplus).fees
-        ≤ bal (runSkip (init [1, 2] [1] [(1, 2)]) witnessSurplus) .collector 2) := by
+    feeAsset 2 (runSkip (init [1, 2] [1] [((1, 2), {})]) witnessSurplus).fees = 20 ∧
+    bal (runSkip (init [1, 2] [1] [((1, 2), {})]) witnessSurplus) .collector 2 = 16 ∧
+    ¬ (feeAsset 2 (runSkip (init [1, 2] [1] [((1, 2), {})]) witnessSurplus).fees
+        ≤ bal (runSkip (init [1, 2] [1] [((1, 2), {})]) witnessSurplus) .collector 2) := by
   refine ⟨?_, by decide, by decide, by decide⟩
   intro op hop
   simp [witnessSurplus] at hop
-  rcases hop with e | e | e <;> subst e <;> simp [Op.extOk]
+  rcases hop with e | e | e | e <;> subst e <;> simp [Op.extOk]
 
 theorem collector_custody_ge_sum_netfees_counterexample_debt :
     ExtOk witnessDebt ∧
-    feeAsset 2 (runSkip (init [1, 2] [1] [(1, 2)]) witnessDebt).fees = 35 ∧
-    bal (runSkip (init [1, 2] [1] [(1, 2)]) witnessDebt) .collector 2 = 22 := by
+    feeAsset 2 (runSkip (init [1, 2] [1] [((1, 2), {})]) witnessDebt).fees = 35 ∧
+    bal (runSkip (init [1, 2] [1] [((1, 2), {})]) witnessDebt) .collector 2 = 22 := by
   refine ⟨?_, by decide, by decide⟩
   intro op hop
   simp [witnessDebt] at hop
-  rcases hop with e | e <;> subst e <;> simp [Op.extOk]
+  rcases hop with e | e | e <;> subst e <;> simp [Op.extOk]
 
 /-- **Net fees move exactly with the coins**: on backed books (no second-generation close so far) every successful operation
 other than those two closes and a bare `DecreaseNetFeeCollectedData` changes, for every asset, the sum of the recorded net
 fees by exactly the change of the collector's custody balance — fees, interest, penalties, returned lots and debt-auction
 proceeds in; locker savings, auction lots, debt cover and surplus funds out. -/
-theorem netfees_delta_exact_partial (assets apps : List Nat) (collk : List (Nat × Nat)) (ops : List Op)
+theorem netfees_delta_exact_partial (assets apps : List Nat) (collk : Store (Nat × Nat) CL) (ops : List Op)
     (h : ExtOk ops) (hv2 : NoV2Close ops) (op : Op) (hop : op.extOk) (hopv2 : op.isV2Close = false)
     (hraw : op.isRawDecrease = false) (s' : State) (hstep : step (runSkip (init assets apps collk) ops) op = some s')
     (asset : Nat) :
@@ -217,8 +236,8 @@ theorem decrease_exact (s s' : State) (app asset : Nat) (x : Int) (h : step s (.
 theorem netfees_delta_exact_counterexample :
     ∃ s s', step s (.v2SurplusClose 1 2 0 2) = some s' ∧
       feeAsset 2 s'.fees - feeAsset 2 s.fees = 2 ∧ bal s' .collector 2 - bal s .collector 2 = -2 :=
-  ⟨runSkip (init [1, 2] [1] [(1, 2)]) [.feeVault 1 2 20, .getAmount 1 2 2],
-   runSkip (init [1, 2] [1] [(1, 2)]) witnessSurplus, by decide, by decide, by decide⟩
+  ⟨runSkip (init [1, 2] [1] [((1, 2), {})]) [.config (.amap 1 2 { surplus := true, active := true }), .feeVault 1 2 20, .getAmount 1 2 2],
+   runSkip (init [1, 2] [1] [((1, 2), {})]) witnessSurplus, by decide, by decide, by decide⟩
 
 /-- After the small repair proposed in notes/C13.md the two closes are exact like every other operation: the invariants are
 preserved without any shortfall (`D` unchanged), so `collector_custody_ge_sum_netfees_partial` then covers them as well. -/
@@ -231,8 +250,309 @@ theorem repaired_debt_close_exact {D : Nat → Int} (s s' : State) (app asset : 
   repairedDebtClose_inv hL hC h
 
 /-- on the surplus witness the repaired close leaves record and custody equal (18 = 18) -/
-example : ((stepRepaired (runSkip (init [1, 2] [1] [(1, 2)]) [.feeVault 1 2 20, .getAmount 1 2 2]) (.v2SurplusClose 1 2 0 2)).map
+example : ((stepRepaired (runSkip (init [1, 2] [1] [((1, 2), {})]) [.config (.amap 1 2 { surplus := true, active := true }), .feeVault 1 2 20, .getAmount 1 2 2]) (.v2SurplusClose 1 2 0 2)).map
     fun s => (feeAsset 2 s.fees, bal s .collector 2, bal s (.user 0) 2)) = some (18, 18, 2) := by decide
+
+/-! ## the savings reward, computed inside the model
+
+`accrue` is the model of `CalculateLockerRewards` up to the ledger code: elapsed time from the locker's (or, for block height 0, the
+collector entry's) time stamp, `CalculationOfRewards` = exact IEEE-754 arithmetic around one `math.Pow` call (`Comdex.Accrual`,
+the value `pw` of that call is the only input), tracker accumulation, whole units handed on. Timed histories
+(`runSkipT`, ops `OpT`) need NO assumption about the reward: admissibility is a theorem (`reward_paid_pos`). -/
+
+/-- **A paid reward is at least one whole unit** (in particular ≥ 0), whatever `math.Pow` returned. -/
+theorem reward_paid_pos (s : State) (ctx : Ctx) (app asset id : Nat) (pw : Option Int) (ρ : Int)
+    (h : (accrue s ctx app asset id pw).1 = .pay ρ) : 1 ≤ ρ :=
+  accrue_pay_pos s ctx app asset id pw ρ h
+
+/-- **The accrued amount is ≥ 0** for a non-negative balance whenever the power value is ≥ 1.0 (`U`; checked on every real call). -/
+theorem accrued_nonneg (n : Int) (lsr : Dec) (secs : Int) (p : Int) (x : Dec) (hn : 0 ≤ n) (hp : (Accrual.U : Int) ≤ p)
+    (h : Accrual.calcRewards n lsr secs (some p) = .ok x) : 0 ≤ x := by
+  unfold Accrual.calcRewards at h
+  split at h; · simp at h
+  split at h; · simp at h
+  simp only at h
+  split at h; · simp at h
+  split at h
+  · simp at h; subst h
+    exact Accrual.interestOfPow_nonneg p _ hp (Accrual.aF_nonneg n hn)
+  · simp at h
+
+/-- **Zero saving rate ⇒ nothing accrues and nothing is paid** (the function returns before touching anything). -/
+theorem accrued_zero_rate (s : State) (ctx : Ctx) (app asset id : Nat) (pw : Option Int) (c : CL)
+    (hc : Store.get s.collk (app, asset) = some c) (h0 : c.lsr = 0) :
+    accrue s ctx app asset id pw = (.none, none) := by
+  unfold accrue
+  split
+  · rfl
+  · simp [hc, h0]
+
+/-- **Zero elapsed time ⇒ nothing accrues**: `math.Pow(x, 0) = 1.0` (IEEE-754 / Go specification; checked on every real call with
+zero elapsed time) gives an accrued amount of exactly 0 … -/
+theorem accrued_zero_time (n : Int) (lsr : Dec) (hn : Accrual.isInt64 n = true) :
+    Accrual.calcRewards n lsr 0 (some (Accrual.U : Int)) = .ok 0 := by
+  unfold Accrual.calcRewards
+  have h1 : Accrual.productOfPow (Accrual.U : Int) (Accrual.aF n) = 0 := by
+    unfold Accrual.productOfPow; rw [Accrual.fsub_self]; exact Accrual.fmul_zero_left _
+  simp [hn, h1, Accrual.finite, Accrual.fmt18_zero, Accrual.maxU, Dec.fits]
+
+/-- … so with a tracker below one whole unit nothing is paid and the tracker is unchanged. -/
+theorem nothing_paid_for_zero_accrual (tr : Dec) (h : tr < Dec.one) :
+    ¬ (Dec.one ≤ tr + 0) ∧ tr + 0 = tr := by
+  simp only [Dec, Dec.one, Dec.P] at *; omega
+
+/-- **Monotone in the balance**: for the same rate and elapsed time (hence the same power value ≥ 1.0) a larger balance accrues at
+least as much. (Monotonicity in time or rate is NOT true of the code: `math.Pow` is not monotone — C18, D-C18.) -/
+theorem accrued_mono_balance (n n' : Int) (lsr : Dec) (secs : Int) (p : Int) (x x' : Dec) (hn : 0 ≤ n) (hnn : n ≤ n')
+    (hp : (Accrual.U : Int) ≤ p) (h : Accrual.calcRewards n lsr secs (some p) = .ok x)
+    (h' : Accrual.calcRewards n' lsr secs (some p) = .ok x') : x ≤ x' := by
+  have key : ∀ (m : Int) (y : Dec), Accrual.calcRewards m lsr secs (some p) = .ok y → y = Accrual.interestOfPow p (Accrual.aF m) := by
+    intro m y hm
+    unfold Accrual.calcRewards at hm
+    split at hm; · simp at hm
+    split at hm; · simp at hm
+    simp only at hm
+    split at hm; · simp at hm
+    split at hm
+    · simp at hm; exact hm.symm
+    · simp at hm
+  rw [key n x h, key n' x' h']
+  exact Accrual.interestOfPow_mono p p _ _ hp (Int.le_refl p) (Accrual.aF_nonneg n hn) (Accrual.aF_mono n n' hn hnn)
+
+/-- **Never more than the collector's recorded net fees** for that (app, asset): a message that pays a reward `ρ` succeeds only
+if `ρ ≤ netFees(app, asset)`, and the record drops by exactly `ρ` in the reward step. Contrapositive: when the collector cannot
+pay, the whole deposit / withdraw / close / reward-calc message is rejected and nothing changes. -/
+theorem reward_le_netfees (s s' : State) (ctx : Ctx) (u app asset id : Nat) (amt : Int) (pw : Option Int) (ρ : Int)
+    (hpay : (accrue s ctx app asset id pw).1 = .pay ρ)
+    (h : stepT s ctx (.deposit u app asset id amt pw) = some s' ∨ stepT s ctx (.withdraw u app asset id amt pw) = some s' ∨
+         stepT s ctx (.close u app asset id pw) = some s') :
+    ρ ≤ fee s (app, asset) := by
+  have hρ : 0 ≤ ρ := by have := accrue_pay_pos s ctx app asset id pw ρ hpay; omega
+  rcases h with h | h | h <;> simp only [stepT, Option.map_eq_some_iff] at h <;> obtain ⟨s1, hs, _⟩ := h <;> rw [hpay] at hs
+  · obtain ⟨l, s2, hl, ha, hr⟩ := (msg_reward_some hs).1 _ _ _ _ _ _ rfl
+    exact (reward_pay_le_fee hρ hl ha hr).1
+  · obtain ⟨l, s2, hl, ha, hr⟩ := (msg_reward_some hs).2.1 _ _ _ _ _ _ rfl
+    exact (reward_pay_le_fee hρ hl ha hr).1
+  · obtain ⟨l, s2, hl, ha, hr⟩ := (msg_reward_some hs).2.2.1 _ _ _ _ _ rfl
+    exact (reward_pay_le_fee hρ hl ha hr).1
+
+theorem reward_unpayable_rejects (s : State) (ctx : Ctx) (u app asset id : Nat) (amt : Int) (pw : Option Int) (ρ : Int)
+    (hpay : (accrue s ctx app asset id pw).1 = .pay ρ) (hshort : fee s (app, asset) < ρ) :
+    stepT s ctx (.deposit u app asset id amt pw) = none ∧ stepT s ctx (.withdraw u app asset id amt pw) = none ∧
+    stepT s ctx (.close u app asset id pw) = none := by
+  refine ⟨?_, ?_, ?_⟩
+  · cases h : stepT s ctx (.deposit u app asset id amt pw) with
+    | none => rfl
+    | some s' => have := reward_le_netfees s s' ctx u app asset id amt pw ρ hpay (Or.inl h); omega
+  · cases h : stepT s ctx (.withdraw u app asset id amt pw) with
+    | none => rfl
+    | some s' => have := reward_le_netfees s s' ctx u app asset id amt pw ρ hpay (Or.inr (Or.inl h)); omega
+  · cases h : stepT s ctx (.close u app asset id pw) with
+    | none => rfl
+    | some s' => have := reward_le_netfees s s' ctx u app asset id amt pw ρ hpay (Or.inr (Or.inr h)); omega
+
+/-- the reward-calculation message: same bound, and the record drops by exactly the paid reward -/
+theorem reward_calc_le_netfees (s s' : State) (ctx : Ctx) (app id : Nat) (pw : Option Int) (l : Locker) (ρ : Int)
+    (hl : Store.get s.lockers id = some l) (hpay : (accrue s ctx app l.asset id pw).1 = .pay ρ)
+    (h : stepT s ctx (.rewardCalc app id pw) = some s') :
+    ρ ≤ fee s (app, l.asset) ∧ fee s' (app, l.asset) = fee s (app, l.asset) - ρ := by
+  have hρ : 0 ≤ ρ := by have := accrue_pay_pos s ctx app l.asset id pw ρ hpay; omega
+  simp only [stepT, hl, Option.map_eq_some_iff] at h
+  obtain ⟨s1, hs, hs'⟩ := h
+  rw [hpay] at hs
+  obtain ⟨l0, hl0, hr⟩ := (msg_reward_some hs).2.2.2 _ _ _ rfl
+  rw [hl] at hl0; cases hl0
+  obtain ⟨a, b⟩ := reward_pay_le_fee hρ hl rfl hr
+  refine ⟨a, ?_⟩
+  rw [← b, ← hs']
+  split <;> rfl
+
+/-! ### histories with the reward computed inside: no assumption about the reward is left -/
+
+def ExtOkT (h : List (Ctx × OpT)) : Prop := ∀ p ∈ h, p.2.extOk
+def dmgTotalT : List (Ctx × OpT) → Nat → Int
+  | [] => fun _ => 0
+  | p :: ps => fun a => p.2.dmg a + dmgTotalT ps a
+def NoV2CloseT (h : List (Ctx × OpT)) : Prop := ∀ p ∈ h, ∀ a, p.2.dmg a = 0
+
+theorem inv_runSkipT (h : List (Ctx × OpT)) : ∀ (s : State) (D : Nat → Int), LInv s → CInvD D s → ExtOkT h →
+    LInv (runSkipT s h) ∧ CInvD (fun a => D a + dmgTotalT h a) (runSkipT s h) := by
+  induction h with
+  | nil => intro s D hL hC _; exact ⟨hL, hC.mono (fun a => by simp [dmgTotalT])⟩
+  | cons p ps ih =>
+    intro s D hL hC hext
+    obtain ⟨ctx, op⟩ := p
+    simp only [runSkipT]
+    have hop : op.extOk := hext (ctx, op) (by simp)
+    have hrest : ExtOkT ps := fun o ho => hext o (by simp [ho])
+    cases hs : stepT s ctx op with
+    | none =>
+      simp only [Option.getD]
+      obtain ⟨a, b⟩ := ih s D hL hC hrest
+      exact ⟨a, b.mono (fun x => by simp only [dmgTotalT]; have := OpT.dmg_nonneg op x; omega)⟩
+    | some s1 =>
+      simp only [Option.getD]
+      obtain ⟨hL1, hC1⟩ := stepT_inv hL hC hop hs
+      obtain ⟨a, b⟩ := ih s1 _ hL1 hC1 hrest
+      exact ⟨a, b.mono (fun x => by simp only [dmgTotalT]; omega)⟩
+
+/-- **Paying the computed reward keeps the books**: after every timed history (locker messages with the reward computed from
+balance, rate, time stamps, tracker and the `math.Pow` value; saving-rate updates iterating over all lockers; every other
+operation) `deposited = Σ net balances`, locker custody ≥ Σ deposited, net fees ≥ 0, and collector custody ≥ Σ net fees up to the
+bounded shortfall of the second-generation closes. -/
+theorem reachableT_inv (assets apps : List Nat) (collk : Store (Nat × Nat) CL) (h : List (Ctx × OpT)) (hext : ExtOkT h) :
+    LInv (runSkipT (init assets apps collk) h) ∧ CInvD (dmgTotalT h) (runSkipT (init assets apps collk) h) := by
+  obtain ⟨hL, hC⟩ := inv_init assets apps collk
+  obtain ⟨a, b⟩ := inv_runSkipT h _ _ hL hC hext
+  exact ⟨a, b.mono (fun x => by omega)⟩
+
+theorem deposited_eq_sum_netbalance_timed (assets apps : List Nat) (collk : Store (Nat × Nat) CL) (h : List (Ctx × OpT))
+    (hext : ExtOkT h) (app asset : Nat) :
+    dep (runSkipT (init assets apps collk) h) (app, asset) = lockSum (app, asset) (runSkipT (init assets apps collk) h).lockers :=
+  (reachableT_inv assets apps collk h hext).1.depEq (app, asset)
+
+theorem locker_custody_ge_deposited_timed (assets apps : List Nat) (collk : Store (Nat × Nat) CL) (h : List (Ctx × OpT))
+    (hext : ExtOkT h) (asset : Nat) :
+    depAsset asset (runSkipT (init assets apps collk) h).lookup ≤ bal (runSkipT (init assets apps collk) h) .locker asset :=
+  (reachableT_inv assets apps collk h hext).1.custody asset
+
+theorem netfees_nonneg_timed (assets apps : List Nat) (collk : Store (Nat × Nat) CL) (h : List (Ctx × OpT)) (hext : ExtOkT h) :
+    ∀ p ∈ (runSkipT (init assets apps collk) h).fees, 0 ≤ p.2 :=
+  (reachableT_inv assets apps collk h hext).2.nonneg
+
+theorem collector_custody_timed_partial (assets apps : List Nat) (collk : Store (Nat × Nat) CL) (h : List (Ctx × OpT))
+    (hext : ExtOkT h) (hv2 : NoV2CloseT h) (asset : Nat) :
+    feeAsset asset (runSkipT (init assets apps collk) h).fees ≤ bal (runSkipT (init assets apps collk) h) .collector asset := by
+  have := (reachableT_inv assets apps collk h hext).2.custody asset
+  have hz : dmgTotalT h asset = 0 := by
+    induction h with
+    | nil => rfl
+    | cons p ps ih =>
+      simp only [dmgTotalT]
+      rw [hv2 p (by simp) asset, ih (fun o ho => hext o (by simp [ho])) (fun o ho => hv2 o (by simp [ho]))]
+      · rfl
+      · exact (reachableT_inv assets apps collk ps (fun o ho => hext o (by simp [ho]))).2.custody asset
+  omega
+
+/-- a timed history: fees 50 in, a locker of 4·10⁸, one year at 10 % with the power value 1.1 (bits 0x3FF199999999999A) -/
+def cl10 : CL := { lsr := 100000000000000000, bt := 1000 }
+def pow11 : Option Int := Accrual.ofBits 0x3FF199999999999A
+def demoT : List (Ctx × OpT) :=
+  [(⟨1000, 1⟩, .plain (.fund 7 2 1000000000)), (⟨1000, 1⟩, .plain (.whitelist 1 2)), (⟨1000, 1⟩, .wlReward 1 2),
+   (⟨1000, 1⟩, .create 7 1 2 400000000), (⟨2000, 2⟩, .plain (.feeVault 1 2 50000000)),
+   (⟨1000 + 31557600, 9⟩, .rewardCalc 1 1 pow11)]
+
+/-- one year at 10 % on 400 000 000 pays 40 000 000 (the float product is 40000000.00000003…, whole units are paid) -/
+example : (runSkipT (init [2] [1] [((1, 2), cl10)]) demoT).lockers = [(1, { owner := 7, app := 1, asset := 2, net := 440000000, ret := 40000000 })] := by
+  decide +kernel
+example : fee (runSkipT (init [2] [1] [((1, 2), cl10)]) demoT) (1, 2) = 10000000 := by decide +kernel
+/-- a second year would accrue 44 000 000 > 10 000 000 recorded: the withdrawal is rejected as a whole -/
+example : stepT (runSkipT (init [2] [1] [((1, 2), cl10)]) demoT) ⟨1000 + 2 * 31557600, 20⟩ (.withdraw 7 1 2 1 5 pow11) = none := by
+  decide +kernel
+
+/-! ## when surplus and debt auctions start (collector lookup thresholds against the recorded net fees) -/
+
+/-- **A surplus auction starts only above the threshold and takes exactly the lot.** Whenever the begin-block start decision of
+either generation changes anything for a surplus entry, `netFees ≥ surplusThreshold + lotSize` held, the record and the collector's
+custody both dropped by exactly `lotSize`, and the lot sits in the first-generation auction account. -/
+theorem surplus_start_only_above_threshold (s : State) (gen2 : Bool) (k : Nat × Nat) (m : AMap)
+    (hm : Store.get s.amap k = some m) (hs : m.surplus = true) (hd : m.debt = false)
+    (hch : (activateOne s gen2 k).1 ≠ s) :
+    ∃ c, Store.get s.collk k = some c ∧ c.surplusThr + c.lot ≤ fee s k ∧ m.active = false ∧
+      fee (activateOne s gen2 k).1 k = fee s k - c.lot ∧
+      bal (activateOne s gen2 k).1 .collector k.2 = bal s .collector k.2 - c.lot ∧
+      bal (activateOne s gen2 k).1 .auction k.2 = bal s .auction k.2 + c.lot := by
+  rcases activateOne_spec s gen2 k with h | ⟨m', c, hm', hc, hact, _, _, h⟩
+  · exact absurd h hch
+  · rw [hm] at hm'; cases hm'
+    rcases h with ⟨hdebt, _⟩ | ⟨_, hthr, s1, hg, hres⟩
+    · rw [hd] at hdebt; cases hdebt
+    · obtain ⟨_, _, e1, e2, e3, _⟩ := getAmount_exact hg
+      refine ⟨c, hc, hthr, hact, ?_⟩
+      rcases hres with hres | ⟨_, _, hres⟩
+      · rw [hres]; exact ⟨e1, e2, e3⟩
+      · rw [hres]; exact ⟨e1, e2, e3⟩
+
+/-- **A debt auction starts only at or below `debtThreshold − lotSize`** (hence below the debt threshold for a non-negative lot), and
+starting it moves nothing: only the active flag is raised. -/
+theorem debt_start_only_below_threshold (s : State) (gen2 : Bool) (k : Nat × Nat) (m : AMap)
+    (hm : Store.get s.amap k = some m) (hd : m.debt = true) (hs : m.surplus = false)
+    (hch : (activateOne s gen2 k).1 ≠ s) :
+    ∃ c, Store.get s.collk k = some c ∧ fee s k ≤ c.debtThr - c.lot ∧ (0 ≤ c.lot → fee s k ≤ c.debtThr) ∧
+      (activateOne s gen2 k).1 = setActive s k m ∧
+      (activateOne s gen2 k).1.fees = s.fees ∧ (activateOne s gen2 k).1.bank = s.bank := by
+  rcases activateOne_spec s gen2 k with h | ⟨m', c, hm', hc, _, _, _, h⟩
+  · exact absurd h hch
+  · rw [hm] at hm'; cases hm'
+    rcases h with ⟨_, hthr, hres⟩ | ⟨hsur, _⟩
+    · exact ⟨c, hc, hthr, fun h0 => by omega, hres, by rw [hres]; rfl, by rw [hres]; rfl⟩
+    · rw [hs] at hsur; cases hsur
+
+/-- **Switched off ⇒ no start**: with the kill switch on (either generation) or after an emergency shutdown (first generation)
+the start decision changes nothing; an entry whose auction is already active is left alone as well. -/
+theorem no_start_when_switched_off (s : State) (gen2 : Bool) (k : Nat × Nat)
+    (h : k.1 ∈ s.killOn ∨ (gen2 = false ∧ k.1 ∈ s.esmOn) ∨ ∃ m, Store.get s.amap k = some m ∧ m.active = true) :
+    activateOne s gen2 k = (s, false) := by
+  unfold activateOne
+  split
+  · rfl
+  · rename_i m hm
+    have : (m.active || decide (k.1 ∈ s.killOn) || (!gen2 && decide (k.1 ∈ s.esmOn))) = true := by
+      rcases h with h | ⟨h1, h2⟩ | ⟨m', hm', ha⟩
+      · simp [h]
+      · simp [h1, h2]
+      · rw [hm] at hm'; cases hm'; simp [ha]
+    simp [this]
+
+/-- a whole begin-block sweep keeps every invariant and is delta-exact (it only ever calls `GetAmountFromCollector`) -/
+theorem activation_sweep_keeps_books {D : Nat → Int} (s : State) (gen2 : Bool) (keys : List (Nat × Nat)) (hL : LInv s) (hC : CInvD D s) :
+    LInv (activate s gen2 keys) ∧ CInvD D (activate s gen2 keys) ∧ Delta s (activate s gen2 keys) :=
+  activate_inv gen2 keys hL hC
+
+/-- books of 12 000 000 with surplus threshold 10 000 000 and lot 2 000 000: exactly at the boundary the auction starts … -/
+def actDemo (fees : Int) (eng : Bool) : State :=
+  runSkip (init [2, 3] [1] [((1, 2), { surplusThr := 10000000, debtThr := 5000000, lot := 2000000, debtLot := 1 })])
+    [.penalty 1 2 fees, .config (.amap 1 2 { surplus := true }), .config (.english 1 eng)]
+example : fee (activate (actDemo 12000000 true) true [(1, 2)]) (1, 2) = 10000000 := by decide
+example : Store.get (activate (actDemo 12000000 true) false [(1, 2)]).amap (1, 2) = some { surplus := true, active := true } := by decide
+/-- … one unit below it does not … -/
+example : activate (actDemo 11999999 true) true [(1, 2)] = actDemo 11999999 true := by decide
+example : activate (actDemo 11999999 true) false [(1, 2)] = actDemo 11999999 true := by decide
+/-- … and in the second generation, when English auctions are not activated for the app, the lot leaves the collector although no
+auction exists and the entry stays inactive, so the next block takes the next lot (the begin-blocker is not atomic; C15). -/
+example : fee (activate (activate (actDemo 14000000 false) true [(1, 2)]) true [(1, 2)]) (1, 2) = 10000000 ∧
+    Store.get (activate (activate (actDemo 14000000 false) true [(1, 2)]) true [(1, 2)]).amap (1, 2) = some { surplus := true } ∧
+    bal (activate (activate (actDemo 14000000 false) true [(1, 2)]) true [(1, 2)]) .auction 2 = 4000000 := by decide
+
+/-! ## emergency shutdown and kill switch: the first guards of the locker messages -/
+
+/-- **Guard on ⇒ rejected, nothing changes**: after an emergency shutdown of the app, or with its kill switch on, creating a locker,
+depositing into one and whitelisting an asset are rejected (`none`: the books are untouched), with or without the reward computed
+in the model, for every state and every argument. -/
+theorem shutdown_blocks_create_deposit_whitelist (s : State) (app : Nat) (h : app ∈ s.esmOn ∨ app ∈ s.killOn)
+    (u asset id : Nat) (amt : Int) (rw : Rw) (ctx : Ctx) (pw : Option Int) :
+    step s (.create u app asset amt) = none ∧ step s (.deposit u app asset id amt rw) = none ∧
+    step s (.whitelist app asset) = none ∧
+    stepT s ctx (.create u app asset amt) = none ∧ stepT s ctx (.deposit u app asset id amt pw) = none := by
+  have hc : step s (.create u app asset amt) = none := by
+    simp only [step]; rcases h with h | h <;> simp [h]
+  have hd : ∀ rw, step s (.deposit u app asset id amt rw) = none := by
+    intro rw; simp only [step]; rcases h with h | h <;> simp [h]
+  have hw : step s (.whitelist app asset) = none := by
+    simp only [step]; rcases h with h | h <;> simp [h]
+  refine ⟨hc, hd rw, hw, ?_, ?_⟩
+  · simp [stepT, hc]
+  · simp [stepT, hd]
+
+/-- a rejected message leaves the history's state unchanged -/
+theorem rejected_is_noop (s : State) (op : Op) (ops : List Op) (h : step s op = none) : runSkip s (op :: ops) = runSkip s ops := by
+  simp [runSkip, h]
+
+/-- withdraw and close carry NO such guard (msg_server.go:218-371): savers can leave after a shutdown -/
+example :
+    let s := runSkip (init [2] [1] [((1, 2), {})]) [.fund 7 2 1000, .whitelist 1 2, .create 7 1 2 400, .config (.esm 1 true), .config (.kill 1 true)]
+    step s (.deposit 7 1 2 1 5 .none) = none ∧ (step s (.withdraw 7 1 2 1 100 .none)).isSome = true ∧
+    (step s (.close 7 1 2 1 .none)).isSome = true := by decide
 
 /-! ## non-vacuity: concrete histories on which the hypotheses hold and the interesting branches fire -/
 
@@ -246,22 +566,22 @@ example : ExtOk demo ∧ NoV2Close demo := by
     rcases hop with e | e | e | e | e | e | e | e | e <;> subst e <;> simp [Op.extOk, Op.isV2Close, Rw.ok]
 
 /-- every op of `demo` is accepted, the locker ends with 400 − 100 + 3 + 10 + 5 + 2 = 320, the net fees with 50 − 3 − 5 − 2 − 4 = 36 -/
-example : (run (init [2] [1] [(1, 2)]) demo).isSome = true := by decide
-example : dep (runSkip (init [2] [1] [(1, 2)]) demo) (1, 2) = 320 := by decide
-example : fee (runSkip (init [2] [1] [(1, 2)]) demo) (1, 2) = 36 := by decide
-example : bal (runSkip (init [2] [1] [(1, 2)]) demo) .collector 2 = 36 := by decide
-example : bal (runSkip (init [2] [1] [(1, 2)]) demo) .locker 2 = 320 := by decide
-example : bal (runSkip (init [2] [1] [(1, 2)]) demo) (.user 7) 2 = 690 := by decide
+example : (run (init [2] [1] [((1, 2), {})]) demo).isSome = true := by decide
+example : dep (runSkip (init [2] [1] [((1, 2), {})]) demo) (1, 2) = 320 := by decide
+example : fee (runSkip (init [2] [1] [((1, 2), {})]) demo) (1, 2) = 36 := by decide
+example : bal (runSkip (init [2] [1] [((1, 2), {})]) demo) .collector 2 = 36 := by decide
+example : bal (runSkip (init [2] [1] [((1, 2), {})]) demo) .locker 2 = 320 := by decide
+example : bal (runSkip (init [2] [1] [((1, 2), {})]) demo) (.user 7) 2 = 690 := by decide
 /-- the close pays the full 320 -/
-example : bal (runSkip (init [2] [1] [(1, 2)]) (demo ++ [.close 7 1 2 1 .none])) (.user 7) 2 = 1010 := by decide
+example : bal (runSkip (init [2] [1] [((1, 2), {})]) (demo ++ [.close 7 1 2 1 .none])) (.user 7) 2 = 1010 := by decide
 /-- a withdrawal above the balance, a foreign owner and a zero amount are rejected -/
-example : step (runSkip (init [2] [1] [(1, 2)]) demo) (.withdraw 7 1 2 1 321 .none) = none := by decide
-example : step (runSkip (init [2] [1] [(1, 2)]) demo) (.withdraw 8 1 2 1 1 .none) = none := by decide
-example : step (runSkip (init [2] [1] [(1, 2)]) demo) (.deposit 7 1 2 1 0 .none) = none := by decide
+example : step (runSkip (init [2] [1] [((1, 2), {})]) demo) (.withdraw 7 1 2 1 321 .none) = none := by decide
+example : step (runSkip (init [2] [1] [((1, 2), {})]) demo) (.withdraw 8 1 2 1 1 .none) = none := by decide
+example : step (runSkip (init [2] [1] [((1, 2), {})]) demo) (.deposit 7 1 2 1 0 .none) = none := by decide
 /-- a reward larger than the recorded net fees makes the whole message fail -/
-example : step (runSkip (init [2] [1] [(1, 2)]) demo) (.withdraw 7 1 2 1 1 (.pay 37)) = none := by decide
+example : step (runSkip (init [2] [1] [((1, 2), {})]) demo) (.withdraw 7 1 2 1 1 (.pay 37)) = none := by decide
 /-- `GetAmountFromCollector` refuses to empty the record (strict comparison) -/
-example : step (runSkip (init [2] [1] [(1, 2)]) demo) (.getAmount 1 2 36) = none := by decide
-example : (step (runSkip (init [2] [1] [(1, 2)]) demo) (.getAmount 1 2 35)).isSome = true := by decide
+example : step (runSkip (init [2] [1] [((1, 2), {})]) demo) (.getAmount 1 2 36) = none := by decide
+example : (step (runSkip (init [2] [1] [((1, 2), {})]) demo) (.getAmount 1 2 35)).isSome = true := by decide
 
 end Comdex.C13
